@@ -32,7 +32,15 @@ def concurrency_safe_write(object_to_write, filename, write_func):
     """Writes an object into a unique file in a concurrency-safe way."""
     thread_id = id(threading.current_thread())
     temporary_filename = "{}.thread-{}-pid-{}".format(filename, thread_id, os.getpid())
-    write_func(object_to_write, temporary_filename)
+    try:
+        write_func(object_to_write, temporary_filename)
+    except BaseException:
+        # Do not leave a partial temporary file behind for ever.
+        try:
+            os.unlink(temporary_filename)
+        except OSError:
+            pass
+        raise
 
     return temporary_filename
 
